@@ -458,13 +458,16 @@ pub fn check_main(args: &[String]) -> i32 {
     let vdir = PathBuf::from(arg_val(args, "--verif-dir").unwrap_or_else(|| "/verif".into()));
     let default_runs = if tier == "quick" { 24_000 } else { 1_000_000 };
     let runs = arg_u64(args, "--runs", default_runs).max(jobs);
-    let with_miri = (prop == "C07" || prop == "C11") && !args.iter().any(|a| a == "--no-miri");
+    let with_miri = (prop == "C07" || prop == "C11" || prop == "C12") && !args.iter().any(|a| a == "--no-miri");
     // C07's Miri findings (out-of-bounds, uninitialised reads, invalid float->int) hardly depend on
     // the schedule: many workloads, few Miri seeds. C11's (races inside added code) do: fewer
     // workloads, many seeds each.
     let (dw, ds) = match (prop.as_str(), tier.as_str()) {
         ("C07", "quick") => (12, 2),
         ("C07", _) => (160, 3),
+        // C12: clone / data_mut / shared-borrow races in whatever buffer sharing a change introduces
+        ("C12", "quick") => (4, 6),
+        ("C12", _) => (32, 12),
         (_, "quick") => (4, 8),
         _ => (40, 16),
     };
